@@ -1,6 +1,6 @@
 (* Properties/C12.v — generated score states are consistent, stable, and what calculate() uses *)
-From Coq Require Import ZArith List Bool Floats.
-From V Require Import F64 Gradual GenState GenStateMania GenStateProofs GenStateManiaProofs GenStateManiaTop.
+From Coq Require Import ZArith List Bool Floats String.
+From V Require Import F64 Gradual GenState GenStateMania GenStateProofs GenStateManiaProofs GenStateManiaTop Tables ScoreConv ScoreConvProofs.
 Import ListNotations.
 Open Scope Z_scope.
 
@@ -85,3 +85,17 @@ Example C12_mania_example :
   let i := mk_mania_in 20 3 4294967295 None None None None None (Some 2) (Some 0x1.ccccccccccccdp-1%float) true false in
   mania_accepts i = true /\ ms_total (mania_generate i) = 23.
 Proof. vm_compute. split; reflexivity. Qed.
+
+(* the generated state survives the mode-agnostic ScoreState: `From<Mode> for ScoreState` followed
+   by `From<ScoreState> for Mode` (tables regenerated from src/any/score_state.rs on every run) is
+   the identity on every field of every mode state, so `Performance::state(generated)` evaluates the
+   state the mode's own builder generated *)
+Theorem C12_score_state_roundtrip : forall mode to_mode from_mode,
+  table_of "ScoreState"%string mode = Some to_mode -> table_of mode "ScoreState"%string = Some from_mode ->
+  roundtrip_ok mode = true ->
+  forall (s : sstate) f, In f (fields_of to_mode) -> conv to_mode (conv from_mode s) f = s f.
+Proof. exact score_state_roundtrip. Qed.
+Print Assumptions C12_score_state_roundtrip.
+Theorem C12_score_state_roundtrip_now : forallb roundtrip_ok mode_states = true.
+Proof. exact tables_score_roundtrip. Qed.
+Print Assumptions C12_score_state_roundtrip_now.
